@@ -120,7 +120,13 @@ def entry_goal_jobs(run, kinds, W=16):
              "args": ["replay", "--seed", str(run.seed), os.path.join(vlib.VERIF, "corpus", "%s_w%d_entrygoals.ndjson" % (k, W))]} for k in kinds]
 
 
-def generic_check(run, models_q, models_t, jobs_q, jobs_t, rule, corpus=False, fault_corpus=False, goals=False, sgoals=False, tgoals=False, egoals=(), count=False):
+def fault_goal_jobs(run, kinds, W=16):
+    """Callback panics (Drop, Clone, Eq, BuildHasher::clone) at fixed invocations inside every operation that runs them."""
+    return [{"name": "%sfaultgoals_w%d" % (k, W), "backend": "sse2" if W == 16 else "generic",
+             "args": ["replay", "--seed", str(run.seed), os.path.join(vlib.VERIF, "corpus", "%s_w%d_faultgoals.ndjson" % (k, W))]} for k in kinds]
+
+
+def generic_check(run, models_q, models_t, jobs_q, jobs_t, rule, corpus=False, fault_corpus=False, goals=False, sgoals=False, tgoals=False, egoals=(), count=False, fgoals=()):
     quick = run.tier == Q
     run.assumptions += COMMON_ASSUMPTIONS
     for m in (models_q if quick else models_q + models_t):
@@ -144,6 +150,10 @@ def generic_check(run, models_q, models_t, jobs_q, jobs_t, rule, corpus=False, f
         jl += goal_jobs(run, 16, (1, 3, 8, 9) if quick else (1, 2, 3, 6, 8, 9))
         if not quick:
             jl += goal_jobs(run, 8)
+    if fgoals:
+        jl += fault_goal_jobs(run, fgoals, 16)
+        if not quick:
+            jl += fault_goal_jobs(run, fgoals, 8)
     if egoals:
         jl += entry_goal_jobs(run, egoals, 16)
         if not quick:
@@ -192,7 +202,7 @@ def c02(run):
          ("zst2", ["table:t0:zero:1:6000:tablezst"], {"module": "HbZstTrace.tla", "cfg": "HbZstTrace.cfg"})],
         "layout matrix (element sizes 1..208, alignments 1..64, with / without drop glue) x collection kinds x hash plans incl. all-colliding, with leaked "
         "drains and injected callback panics; the structural invariant (exactly the preconditions of the unsafe blocks) is evaluated on every observed state; "
-        "checking allocator (red zones, layout match), element registry and debug assertions observe the implementation side", corpus=True, fault_corpus=True)
+        "checking allocator (red zones, layout match), element registry and debug assertions observe the implementation side", corpus=True, fault_corpus=True, fgoals=("map", "set", "table"))
 
 
 def c04(run):
@@ -210,7 +220,7 @@ def c04(run):
         "model: every reachable small-scope state x operation x k-th hasher invocation panics (scope guards as written in the code), for HashMap, "
         "HashTable (re-hash closure) and HashSet (incl. the assigning operators); "
         "code: random fault injection (Hash, Eq, Clone, Drop, BuildHasher::clone) at the k-th invocation and generated behaviours whose growing / "
-        "in-place-rehashing call panics at the k-th hasher invocation; post-unwind state validated", fault_corpus=True, egoals=("map", "set", "table"))
+        "in-place-rehashing call panics at the k-th hasher invocation; post-unwind state validated", fault_corpus=True, egoals=("map", "set", "table"), fgoals=("map", "set", "table"))
 
 
 def c05(run):
@@ -241,7 +251,7 @@ def c03(run):
          ("pardrops", ["map:kv16:collide:40:500:par", "set:k8t:collide:30:300:parset", "table:te24:zero:40:300:partable"])],
         [("drops2", ["map:kv200:collide:30:3000:wide", "map:kva64:max:20:2000:iter", "map:kv16:onegroup:14:3000:two"]),
          ("dropsg", ["map:kv16:collide:24:3000:wide", "set:k8t:zero:14:2000:setalg"], G)],
-        "every element id and allocator block is followed through every call: drops observed in each call = drops of the abstract machine; block ledger = layouts of the live tables", corpus=True)
+        "every element id and allocator block is followed through every call: drops observed in each call = drops of the abstract machine; block ledger = layouts of the live tables", corpus=True, fgoals=("map", "set", "table"))
 
 
 def c06(run):
@@ -300,7 +310,7 @@ def c10(run):
                        "set:k8t:collide:20:400:set:fault=30,fclass=drop"])],
         [("sel2", ["map:kv16:onegroup:12:3000:iter", "map:kv200:fewpos:60:3000:iter"]),
          ("selg", ["map:kv16:collide:40:3000:iter", "set:k8t:zero:30:2000:set"], G)],
-        "retain / extract_if / drain with random predicates (subsets) and early-drop points; predicate calls, yields and post-state validated", goals=True, sgoals=True, tgoals=True)
+        "retain / extract_if / drain with random predicates (subsets) and early-drop points; predicate calls, yields and post-state validated", goals=True, sgoals=True, tgoals=True, fgoals=("map", "set", "table"))
 
 
 def c11(run):
@@ -311,7 +321,7 @@ def c11(run):
          ("twofault", ["map:kv16:collide:24:700:two:fault=40,fclass=clone,plan2=mixed", "set:k8t:collide:20:400:setalg:fault=30,fclass=clone"])],
         [("two2", ["map:kv200:onegroup:14:3000:two", "map:kva64:fewpos:30:3000:two:plan2=collide"]),
          ("twog", ["map:kv16:collide:24:3000:two:plan2=mixed"], G)],
-        "ordered pairs (target, source) of tables built by random histories under different plans; clone / clone_from / == validated incl. fresh identities of the clones and later independence", goals=True)
+        "ordered pairs (target, source) of tables built by random histories under different plans; clone / clone_from / == validated incl. fresh identities of the clones and later independence", goals=True, fgoals=("map", "set"))
 
 
 def c12(run):
